@@ -81,6 +81,18 @@ def units(rng, tier):
         a, b = res[2 * i], res[2 * i + 1]
         if isinstance(a, dict) and isinstance(b, dict) and "ok" in a and "ok" in b and len(a["ok"]) > len(b["ok"]):
             us += group(rng, C, v, "search-improves-on-bfd(screened,9-13 items)")
+    # (4) the SEARCH itself, not only its answer: the sequence of (largest unpacked item, remaining items) at every call of
+    # find_bin_completions - which bins are opened in which branch - recorded by wrapping the module attribute, compared exactly with
+    # the traced model (Model/BinCompletionTrace.v, result proved equal to bin_completion).  A branch that is pruned, kept, reordered or
+    # built from the wrong items shows up here on most inputs on which the search runs, long before it changes a final count.
+    tr_cands = [cv for cv in hard[:150 if tier == "quick" else 1500]]
+    for _ in range(500 if tier == "quick" else 5000):
+        C = rng.choice([10, 12, 20, 30, 50, 100])
+        n = rng.randint(5, 12)
+        pool = [rng.randint(1, C) for _ in range(rng.randint(3, n))]
+        tr_cands.append((C, [rng.choice(pool) for _ in range(n)]))
+    for C, v in tr_cands:
+        us.append({"kind": "bc_trace", "params": {"C": C, "vals": list(v), "keep": rng.random() < 0.7}, "cmp": "trace", "family": "search-trace", "group": 0})
     for _ in range(220 if tier == "quick" else 3000):
         C, vals, fam = gen.packing_instance(rng, nmax=11, family=rng.choice([None, None, "perfect", "thresholds"]))
         vals = [v for v in vals if v >= 1][:11]
@@ -102,6 +114,11 @@ def count_of(impl):
 
 def judge_requests(u, impl, model):
     p = u["params"]
+    if u["kind"] == "bc_trace":
+        if "exc" in impl:
+            return [("py", None, f"bin_completion(binsize={p['C']}, items={p['vals']}) did not complete: {impl['exc']}")]
+        n = len(impl["bins"])
+        return [("min_bins", [p["C"], p["vals"]], lambda r: None if r == n else f"bin_completion(binsize={p['C']}, items={p['vals']}) uses {n} bins, the minimum is {r}")] if len(p["vals"]) <= 11 else []
     if u["kind"] == "bc_util":
         if "exc" in impl:
             return [("py", None, f"lower_bound({p['C']}, {p['items']}) raised {impl['exc']}")]
@@ -136,6 +153,8 @@ def extra_checks(rng, tier, us, oc):
 
 
 def nontrivial(u, impl, model):
+    if u["kind"] == "bc_trace":
+        return len(impl.get("trace", [])) >= 2
     if u["kind"] == "bc_util":
         return len(u["params"]["items"]) >= 4
     return len(u["params"]["vals"]) >= 4 and (count_of(impl) or 0) >= 2
